@@ -402,6 +402,29 @@ def c03_specs(r, tm_tokens):
     return qs
 
 
+def cadence_specs(r, tms_tokens):
+    """"due times ... behave exactly as in the threading scheduler": the k-th start of a cyclic job (no skip_missing) belongs to
+    s + k*T (s + (k-1)*T with delay=False), and the due times the successive starts of a clock-time / weekday job (no skip_missing,
+    delay=True) belonged to enumerate the occurrences of its times after the reference without omission"""
+    qs = []
+    jobs = top_jobs(r)
+    nstart, dues = {}, {}
+    for ob in r["obs"]:
+        for (_t, k, kind, due) in ob.get("events", []):
+            if kind != "S" or k not in jobs or jobs[k].get("skip"):
+                continue
+            o2 = jobs[k]
+            if o2["call"] == 0:
+                nstart[k] = nstart.get(k, 0) + 1
+                d = 1 if o2.get("delay", True) else 0
+                qs.append((f"spec cadence {d} {ref_of(o2)} {o2['timings'][0][1]} {nstart[k]} {due}", {"what": "aio cadence", "key": k, "execution": nstart[k]}))
+            elif o2["call"] in (1, 2, 3, 4) and o2.get("delay", True):
+                dues.setdefault(k, []).append(due)
+    for k, ds in dues.items():
+        qs.append((f"spec enum {tms_tokens(jobs[k])} {ref_of(jobs[k])} {core.s_list(ds)}", {"what": "aio none_lost_enumeration", "key": k, "dues": ds[:6]}))
+    return qs
+
+
 def first_due_specs(r, tm_tokens):
     """the due time right after a successful scheduling call is the one the property names: start + T (start itself
     with delay=False) for cyclic jobs, the least occurrence strictly after the reference for single clock-time /
